@@ -531,6 +531,12 @@ _PURE_METHODS = {"get", "keys", "values", "items", "copy", "startswith", "endswi
                  "difference", "isdisjoint", "done", "result", "to_bytes", "from_bytes"}
 
 
+# exception classes of the language: constructing one stores its arguments and does nothing else
+_BUILTIN_EXCEPTIONS = {"BaseException", "Exception", "ArithmeticError", "AssertionError", "AttributeError", "BufferError", "EOFError",
+                       "IndexError", "KeyError", "LookupError", "NotImplementedError", "OverflowError", "RuntimeError", "StopIteration",
+                       "TypeError", "ValueError", "ZeroDivisionError", "UnicodeError", "OSError", "TimeoutError", "ConnectionError"}
+
+
 def _strip(v):
     """the value without heap epochs (two reads of the same field are the same field)"""
     if type(v) is tuple and v:
@@ -565,6 +571,21 @@ def _vchain(v) -> str | None:
     return None
 
 
+def _static_value(x):
+    """symbolic value of an expression made of constants, global names, attribute chains and tuples of those (immutable, no calls); else None"""
+    if isinstance(x, ast.Constant):
+        return ("const", x.value)
+    if isinstance(x, ast.Name):
+        return ("global", x.id)
+    if isinstance(x, ast.Attribute):
+        b = _static_value(x.value)
+        return ("attr", b, x.attr) if b is not None and b[0] in ("global", "attr") else None
+    if isinstance(x, ast.Tuple):
+        vs = [_static_value(y) for y in x.elts]
+        return None if any(y is None for y in vs) else ("tuple", tuple(vs))
+    return None
+
+
 def _local_container(v) -> bool:
     """a list / dict / set / deque that was built by the code being executed"""
     return v[0] in ("list", "dict", "set", "local", "comp") or \
@@ -590,13 +611,14 @@ class _Frame:
 
 
 class _St:
-    __slots__ = ("frames", "heap", "facts", "events", "effects", "epoch", "qver", "ret", "objs", "exc_from")
+    __slots__ = ("frames", "heap", "facts", "events", "effects", "epoch", "qver", "ret", "objs", "exc_from", "exc_value")
 
     def __init__(self) -> None:
         self.frames = []
         self.heap = {}
         self.objs = {}          # fields of objects the executed code itself created: (object, field) -> value
         self.exc_from = None    # the statement / condition that was left by an exception (until a handler is entered)
+        self.exc_value = None   # the value of the `raise` statement whose exception is propagating (until the next statement / handler)
         self.facts = {}
         self.events = []
         self.effects = []
@@ -610,6 +632,7 @@ class _St:
         n.heap = dict(self.heap)
         n.objs = dict(self.objs)
         n.exc_from = self.exc_from
+        n.exc_value = self.exc_value
         n.facts = dict(self.facts)
         n.events = list(self.events)
         n.effects = list(self.effects)
@@ -928,6 +951,12 @@ class _Interp:
                         and not any(a is None for a in args) and not any(a is None for a in kws.values()):
                     got = self.stdlib_call(expr, std, args, kws, None)
                     val = got[0][0] if got else None
+                elif std is None and not any(a is None for a in args) and not any(a is None for a in kws.values()):
+                    # NAME = Settings(...) of a frozen dataclass / NamedTuple, bound once: an immutable record of its (default) fields
+                    ci = self.repo.resolve_class_expr(module, expr.func)
+                    n_stores = sum(1 for n in ast.walk(module.tree) if isinstance(n, ast.Name) and n.id == name and isinstance(n.ctx, (ast.Store, ast.Del)))
+                    if ci is not None and n_stores == 1 and self.immutable_record_class(ci):
+                        val = self.record(ci, args, kws)
             if isinstance(expr, (ast.Tuple, ast.List, ast.Set)):
                 elts = []
                 for x in expr.elts:
@@ -1685,6 +1714,9 @@ class _Interp:
 
     # ---------------------------------------------------------------- calls
     def ev_call(self, c, st):  # noqa: C901
+        out = self.super_call(c, st)
+        if out is not None:
+            return out
         out = []
         f = c.func
         if isinstance(f, ast.Attribute):
@@ -1774,6 +1806,12 @@ class _Interp:
             made = self.instantiate(target, args, kwargs, st, c)
             if made is not None:
                 return made
+            made = self.instantiate_exception(target, args, kwargs, st, c)
+            if made is not None:
+                return made
+            if target is None and fv[1] in _BUILTIN_EXCEPTIONS and not kwargs and kwargs is not None and _STAR not in args \
+                    and fv[1] not in st.frames[-1].env:
+                return [(("record", fv[1], (("args", ("tuple", tuple(args))),)), st)]      # an exception object of the language
             if hasattr(target, "node") and hasattr(target, "qualname") and not hasattr(target, "methods") and self.follow(target):
                 return self.invoke_named(target, None, args, kwargs, st, c)
             return self.on_unknown_call(c, fv, args, kwargs, st)
@@ -1901,6 +1939,16 @@ class _Interp:
         return ("NamedTuple" in ci.base_names or any(d.split(".")[-1] == "dataclass" for d in decs)) \
             and not ({"__init__", "__new__", "__post_init__"} & set(ci.methods)) and len(ci.base_names) <= 1
 
+    def immutable_record_class(self, ci) -> bool:
+        """a NamedTuple, or a dataclass declared frozen=True, without __init__ / __new__ / __post_init__ (see plain_record_class)"""
+        if not hasattr(ci, "annotations") or not hasattr(ci, "methods") or not self.plain_record_class(ci) or ci.all_subclasses() \
+                or {"__getattr__", "__getattribute__", "__setattr__"} & set(ci.methods):
+            return False
+        if "NamedTuple" in ci.base_names:
+            return True
+        return any(isinstance(d, ast.Call) and (chain(d.func) or "").split(".")[-1] == "dataclass"
+                   and any(k.arg == "frozen" and const_value(k.value) is True for k in d.keywords) for d in ci.node.decorator_list)
+
     def plain_class(self, ci) -> bool:
         init = ci.methods.get("__init__")
         return not (init is None or [b for b in ci.base_names if b != "object"]
@@ -1925,10 +1973,108 @@ class _Interp:
                     return None
                 cv = const_value(d)
                 if cv is NOCONST:
-                    return None
+                    # a default spelled with names of the module (a tuple of named constants): the same value in every instance
+                    sv = _static_value(d) if ci.module is self.top.module else None
+                    if sv is None:
+                        return None
+                    vals[f] = sv
+                    continue
                 vals[f] = ("const", cv)
         self._rec_classes[ci.name] = ci
         return ("record", ci.name, tuple((f, vals[f]) for f in fields))
+
+    def exception_class(self, ci) -> bool:
+        """
+        A repository class that is nothing but an exception: every class of its MRO derives (only) from exception classes of the
+        language or from other such classes, has no decorators / metaclass and defines none of the hooks that change what
+        construction or attribute access mean. Calling it builds an object (its __init__, if any, is executed); nothing else happens.
+        """
+        if not hasattr(ci, "methods") or not hasattr(ci, "base_names") or not hasattr(ci, "mro"):
+            return False
+        key = ("exception-class", id(ci.node))
+        if key not in self._globals:
+            ok, rooted = True, False
+            chain_ = ci.mro()
+            for c in chain_:
+                if c.node.decorator_list or c.node.keywords or not c.base_names \
+                        or {"__new__", "__setattr__", "__getattr__", "__getattribute__", "__init_subclass__", "__class_getitem__"} & set(c.methods) \
+                        or any(_is_generator(m.node) for m in c.methods.values()):
+                    ok = False
+                    break
+                for b in c.node.bases:
+                    r = self.repo.resolve_class_expr(c.module, b)
+                    if r is not None:
+                        if not any(r is x for x in chain_):
+                            ok = False
+                    elif isinstance(b, ast.Name) and b.id in _BUILTIN_EXCEPTIONS and self.repo.resolve_name(c.module, b.id) is None:
+                        rooted = True
+                    else:
+                        ok = False
+            self._globals[key] = ok and rooted
+        return self._globals[key]
+
+    def instantiate_exception(self, ci, args, kwargs, st, c):
+        """
+        Call of a (private) exception class: its __init__ - when the repository defines one - is executed on a fresh object, with
+        `super().__init__(...)` into the language's exception classes storing `args`; without one the object holds `args`.
+        The object is a record of the fields stored. None when ci is not such a class or the call cannot be bound.
+        """
+        if kwargs is None or _STAR in args or not self.exception_class(ci):
+            return None
+        init = ci.lookup("__init__")
+        self._rec_classes[ci.name] = ci
+        if init is None:
+            if kwargs:
+                return None
+            return [(("record", ci.name, (("args", ("tuple", tuple(args))),)), st)]
+        obj = ("obj", self.uid(), ci.name)
+        out = []
+        for _, s in self.invoke(init.node, obj, args, kwargs, st, c):
+            fields = tuple((a, val) for (b, a), val in s.objs.items() if b == obj)
+            for f, _ in fields:
+                s.heap.pop((obj, f), None)
+            out.append((("record", ci.name, fields), s))
+        return out
+
+    def super_call(self, c, st):
+        """
+        `super().m(...)` inside a method of an exception class (see exception_class): the next definition of m in the MRO of the
+        object is executed; when there is none in the repository, __init__ of the language's exception classes stores `args`.
+        None = not such a call.
+        """
+        f = c.func
+        if not (isinstance(f, ast.Attribute) and isinstance(f.value, ast.Call) and isinstance(f.value.func, ast.Name) and f.value.func.id == "super"
+                and not f.value.args and not f.value.keywords):
+            return None
+        fr = st.frames[-1]
+        fi = fr.fi
+        own = getattr(fi, "cls", None)
+        if own is None or isinstance(fi, _LambdaInfo) or "super" in fr.env or not fi.params() or not self.exception_class(own) \
+                or self.repo.resolve_name(fi.module, "super") is not None:
+            return None
+        obj = fr.env.get(fi.params()[0])
+        ci = self._rec_classes.get(obj[2]) if obj is not None and obj[0] == "obj" else None
+        if ci is None or not self.exception_class(ci) or not any(x is own for x in ci.mro()):
+            return None
+        mro = ci.mro()
+        rest = mro[[i for i, x in enumerate(mro) if x is own][0] + 1:]
+        target = next((x.methods[f.attr] for x in rest if f.attr in x.methods), None)
+        if target is None and f.attr != "__init__":
+            return None
+        if any(isinstance(a, ast.Starred) for a in c.args) or any(k.arg is None for k in c.keywords):
+            return None
+        out = []
+        for vals, s in self.ev_seq(list(c.args) + [k.value for k in c.keywords], st):
+            args = list(vals[:len(c.args)])
+            kwargs = {k.arg: v for k, v in zip(c.keywords, vals[len(c.args):])}
+            if target is not None:
+                out.extend(self.invoke(target.node, obj, args, kwargs, s, c))
+            elif kwargs:
+                return None
+            else:
+                s.objs[(obj, "args")] = ("tuple", tuple(args))
+                out.append((_NONE, s))
+        return out
 
     def makes_object(self, fv, kwargs, st) -> bool:
         """the call builds an object that is then a tracked value (NamedTuple / dataclass / plain class of the module), see record / instantiate"""
@@ -2119,6 +2265,43 @@ class _Interp:
         self._gen_ends = [e for _, e in ends]
         return out
 
+    def enter_context(self, v, st, c):
+        """
+        `with v [as x]` over a private context manager the executed code made itself: [(value bound to x, state in which the block
+        starts)], None when v is not one. A generator of a @contextmanager function runs to its yield (the yielded value is bound);
+        an object of a private class runs __enter__. What happens on leaving the block - the generator's code after the yield,
+        __exit__ - is executed too, on a copy of the state: every effect site in it is judged with the facts of its own path and
+        its effects count for every path through the block; facts it assumes do not leak into the block.
+        """
+        if v[0] == "gen" and v in self.gens:
+            gfi = self.gens[v][0]
+            names = {d.split(".")[-1] for d in gfi.decorator_names()} if hasattr(gfi, "decorator_names") else set()
+            if not ({"contextmanager", "asynccontextmanager"} & names):
+                return None
+            return list(self.run_generator(v, st))
+        if v[0] == "record":
+            ci = self._rec_classes.get(v[1])
+            enter = ci.lookup("__enter__") if ci is not None else None
+            leave = ci.lookup("__exit__") if ci is not None else None
+            if enter is None or leave is None:
+                return None
+            out = []
+            for bound, s in self.invoke(enter.node, v, [], {}, st, c):
+                n_ev, n_eff = len(s.events), len(s.effects)
+                s_exit = s.fork()
+                saved, self._raised = self._raised, []
+                try:
+                    ends = [x[1] for x in self.invoke(leave.node, v, [_NONE, _NONE, _NONE], {}, s_exit, c)]
+                    ends.extend(self._raised)
+                finally:
+                    self._raised = saved
+                for e in ends:
+                    s.events.extend(y for y in e.events[n_ev:] if y not in s.events)
+                    s.effects.extend(y for y in e.effects[n_eff:] if y not in s.effects[n_eff:])
+                out.append((bound, s))
+            return out
+        return None
+
     def exhaust(self, g, st) -> None:
         """the generator is consumed as a whole by something that is not followed (list(), *unpacking, an unknown call): all its effects may happen"""
         n_ev, n_eff = len(st.events), len(st.effects)
@@ -2214,7 +2397,8 @@ class _Interp:
                 out.append(s2)
             return out
         if isinstance(s, ast.Raise):
-            for _, s2 in (self.ev(s.exc, st) if s.exc is not None else [(None, st)]):
+            for v, s2 in (self.ev(s.exc, st) if s.exc is not None else [(None, st)]):
+                s2.exc_value = v
                 self._raised.append(s2)
             return []
         if isinstance(s, ast.Assert):
@@ -2232,6 +2416,13 @@ class _Interp:
                 nxt = []
                 for s2 in out:
                     for v, s3 in self.ev(item.context_expr, s2):
+                        managed = self.enter_context(v, s3, item.context_expr)
+                        if managed is not None:
+                            for bound, s4 in managed:
+                                if item.optional_vars is not None:
+                                    self.assign(item.optional_vars, bound, s4)
+                                nxt.append(s4)
+                            continue
                         if item.optional_vars is not None:
                             self.assign(item.optional_vars, self.unknown(), s3)
                         nxt.append(s3)
@@ -2388,10 +2579,17 @@ class _Interp:
         if kind == "dispatch":
             return [("exc", st)]
         if kind == "handler":
+            val, st.exc_value = st.exc_value, None
             if node.ast.name:
-                st.frames[-1].env[node.ast.name] = self.unknown()
+                # `except X as e` entered by a path that executed `raise <object of the private class X>`: e is that very object
+                types = _handler_types(node.ast.type)
+                known = val is not None and val[0] == "record" and val[1] in types and self._rec_classes.get(val[1]) is not None \
+                    and self.exception_class(self._rec_classes[val[1]])
+                st.frames[-1].env[node.ast.name] = val if known else self.unknown()
             self.caught(st, _handler_types(node.ast.type))
             return [(None, st)]
+        if kind not in ("entry", "join", "dispatch"):
+            st.exc_value = None         # a statement runs (a finally block on the way out): whatever is raised from here on is another exception
         has_exc = any(lab == "exc" and v is not cfg.raise_exit for v, lab in node.succ) \
             or (any(lab == "exc" for _, lab in node.succ) and _suppressor(node.ast) is not None)
         pre = st.fork() if has_exc else None
@@ -2436,6 +2634,7 @@ class _Interp:
                 pre.events.extend(x for x in s.events if x not in pre.events)
                 pre.effects.extend(s.effects[len(pre.effects):])
             pre.exc_from = node.ast
+            pre.exc_value = None
             outs.append(("exc", pre))
         if raised:
             sel = "exc" if any(lab == "exc" for _, lab in node.succ) else "raise"
@@ -2450,6 +2649,7 @@ class _Interp:
         has exactly one item read `base[key]`, a KeyError says `key not in base` and an IndexError on [0] / [-1] says `base` is empty.
         """
         stmt, st.exc_from = st.exc_from, None
+        st.exc_value = None
         if stmt is None or not types or not set(types) <= {"KeyError", "IndexError"} or len(set(types)) != 1:
             return
         if isinstance(stmt, (ast.With, ast.AsyncWith, ast.For, ast.AsyncFor, ast.While, ast.Try, ast.If, ast.Match)):
@@ -2668,6 +2868,10 @@ class _SendPaths(_Interp):
             self.ready_value = self.repo.resolve_const(self.repo.module(TUNNEL), ast.Name(id="CIRCUIT_STATE_READY", ctx=ast.Load()))
         except Exception:  # noqa: BLE001
             self.ready_value = NOCONST
+        try:
+            self.exit_value = self.repo.resolve_const(self.repo.module(TUNNEL), ast.Name(id="PEER_FLAG_EXIT_IPV8", ctx=ast.Load()))
+        except Exception:  # noqa: BLE001
+            self.exit_value = NOCONST
 
     # ---- what the interpreter may enter
     def follow(self, fi) -> bool:
@@ -2830,8 +3034,17 @@ class _SendPaths(_Interp):
         sig = _Source.SIG
         ef, hp, ct = (_call_arg(args, kwargs, sig.index(n), n) for n in ("exit_flags", "hops", "ctype"))
         ef, hp, ct = _strip(ef) if ef else None, _strip(hp) if hp else None, _strip(ct) if ct else None
-        ef_ok = ef is not None and ef[0] in ("list", "tuple", "set") and any(_vchain(x) in ("PEER_FLAG_EXIT_IPV8", "tunnel.PEER_FLAG_EXIT_IPV8") for x in ef[1])
+        ef_ok = ef is not None and ef[0] in ("list", "tuple", "set") and any(self.is_exit_ipv8(x) for x in ef[1])
         return bool(ef_ok and hp == self.canon("hops") and (ct is None or _vchain(ct) in ("CIRCUIT_TYPE_DATA", "tunnel.CIRCUIT_TYPE_DATA")))
+
+    def is_exit_ipv8(self, x) -> bool:
+        """the flag PEER_FLAG_EXIT_IPV8 by name, or a constant (IntFlag / IntEnum member, settings field, literal) that evaluates to its value"""
+        if _vchain(x) in ("PEER_FLAG_EXIT_IPV8", "tunnel.PEER_FLAG_EXIT_IPV8"):
+            return True
+        if self.exit_value is NOCONST or type(self.exit_value) is not int:
+            return False
+        got = self.fold_value(x)
+        return got is not NOCONST and type(got) is int and got == self.exit_value
 
     def lst_ok(self, L, depth: int = 6) -> bool:
         if depth <= 0:
@@ -4627,21 +4840,188 @@ def rule_circuit_filter(ctx: Ctx) -> None:
     ctx.floor("circuit-filter", n, 1)
 
 
+COMM = "ipv8/messaging/anonymization/community.py"
+
+
+def _is_advertised_flags(fi, v, payload: str) -> bool:
+    """v is extract_peer_flags(<payload>.extra_bytes) of the payload this callback received (possibly through a local)"""
+    v = resolve(fi, strip_cast(v)) if v is not None else None
+    if not isinstance(v, ast.Call) or call_name(v) != "extract_peer_flags":
+        return False
+    a = arg(v, 0, "extra_bytes")
+    return a is not None and _achain(fi, a) == f"{payload}.extra_bytes"
+
+
+def _candidate_writes(fi, peer: str, payload: str) -> list:
+    """
+    Everything in fi that changes self.candidates: [(node, kind)] with kind
+    'overwrite'  - candidates[peer] becomes the flags of this payload whatever was there ([peer] = v, update({peer: v}), |= {peer: v},
+                   __setitem__(peer, v)),
+    'keep-first' - the entry is written only when there is none yet (setdefault(peer, ..)),
+    'other'      - any other change (not judged here).
+    """
+    out = []
+
+    def table(e) -> bool:
+        return e is not None and _achain(fi, e) == "self.candidates"
+
+    def entry(k, v) -> bool:
+        return k is not None and _achain(fi, k) == peer and _is_advertised_flags(fi, v, payload)
+
+    def literal_entry(d) -> bool:
+        d = resolve(fi, d) if d is not None else None
+        if isinstance(d, ast.Dict):
+            return any(entry(k, v) for k, v in zip(d.keys, d.values))
+        if isinstance(d, (ast.List, ast.Tuple)):
+            return any(isinstance(x, (ast.Tuple, ast.List)) and len(x.elts) == 2 and entry(x.elts[0], x.elts[1]) for x in d.elts)
+        return False
+
+    for n in walk_no_nested(fi.node):
+        if isinstance(n, (ast.Assign, ast.AnnAssign)) and getattr(n, "value", None) is not None:
+            for t in (n.targets if isinstance(n, ast.Assign) else [n.target]):
+                if isinstance(t, ast.Subscript) and table(t.value):
+                    out.append((n, "overwrite" if entry(t.slice, n.value) else "other"))
+                elif isinstance(t, ast.Attribute) and table(t):
+                    out.append((n, "other"))
+                elif isinstance(t, (ast.Tuple, ast.List)) and any(isinstance(x, ast.Subscript) and table(x.value) for x in ast.walk(t)):
+                    out.append((n, "other"))
+        elif isinstance(n, ast.AugAssign) and table(n.target):
+            out.append((n, "overwrite" if isinstance(n.op, ast.BitOr) and literal_entry(n.value) else "other"))
+        elif isinstance(n, ast.Delete) and any(isinstance(x, ast.Subscript) and table(x.value) for t in n.targets for x in ast.walk(t)):
+            out.append((n, "other"))
+        elif isinstance(n, ast.Call) and isinstance(n.func, ast.Attribute) and table(n.func.value):
+            name = n.func.attr
+            if name == "__setitem__" and len(n.args) == 2 and not n.keywords:
+                out.append((n, "overwrite" if entry(n.args[0], n.args[1]) else "other"))
+            elif name == "update" and len(n.args) == 1 and not n.keywords:
+                out.append((n, "overwrite" if literal_entry(n.args[0]) else "other"))
+            elif name == "setdefault" and n.args and _achain(fi, n.args[0]) == peer:
+                out.append((n, "keep-first"))
+            elif name in _MUTATORS | {"popitem", "setdefault"}:
+                out.append((n, "other"))
+    return out
+
+
+def rule_candidate_flags(ctx: Ctx) -> None:
+    """
+    The flags a hop carries are read from TunnelCommunity.candidates when the hop is created, Circuit.exit_flags reports them and
+    TunnelEndpoint.send's find_circuits(exit_flags=[PEER_FLAG_EXIT_IPV8]) trusts them: the table must hold what the peer advertised
+    LAST. Both introduction callbacks therefore overwrite candidates[peer] with extract_peer_flags(payload.extra_bytes) on every
+    completing path; a keep-first write (setdefault, insert only when absent) lets flags a peer has withdrawn stick.
+    """
+    repo = ctx.repo
+    tc = repo.try_cls("TunnelCommunity", COMM)
+    ctx.anchor(tc, "TunnelCommunity")
+    n = 0
+    undecided = None
+    for name in ("introduction_request_callback", "introduction_response_callback"):
+        fi = tc.methods.get(name)
+        if fi is None:
+            raise AnalysisError(f"anchor-lost: TunnelCommunity.{name}")
+        ps = fi.params()
+        if len(ps) < 4:
+            raise AnalysisError(f"anchor-lost: parameters of TunnelCommunity.{name}")
+        peer, payload = ps[1], ps[3]
+        cfg = ctx.cfg(fi)
+        writes = _candidate_writes(fi, peer, payload)
+        if not writes:
+            # a thin delegation to the other callback with the very same arguments is judged through that callback
+            twin = "introduction_response_callback" if name == "introduction_request_callback" else "introduction_request_callback"
+            body = [st for st in fi.node.body if not (isinstance(st, ast.Expr) and isinstance(st.value, ast.Constant))]
+            c = body[0].value if len(body) == 1 and isinstance(body[0], (ast.Expr, ast.Return)) and isinstance(body[0].value, ast.Call) else None
+            tfi = tc.methods.get(twin)
+            if c is not None and tfi is not None and chain(c.func) == f"self.{twin}" and not c.keywords and len(c.args) == 3 \
+                    and [_achain(fi, x) for x in c.args] == ps[1:4] and len(tfi.params()) >= 4 \
+                    and _candidate_writes(tfi, tfi.params()[1], tfi.params()[3]) and not any(twin in sc.methods for sc in tc.all_subclasses()):
+                n += 1
+                ctx.instance("candidate-flags", fi.where, f"delegates to {twin} with the same peer / payload")
+                continue
+        over = [w for w, k in writes if k == "overwrite"]
+        first = [w for w, k in writes if k == "keep-first"]
+        other = [w for w, k in writes if k == "other"]
+        rebound = [d for p_ in (peer, payload) for d in local_defs(fi, p_)]
+        # the entry of this peer is removed first (pop(peer, ..) / del [peer]) on every path to a setdefault(peer, <flags of this payload>):
+        # together they are an overwrite
+        drops = [w for w in other if (isinstance(w, ast.Call) and w.func.attr == "pop" and w.args and _achain(fi, w.args[0]) == peer)
+                 or (isinstance(w, ast.Delete) and len(w.targets) == 1 and isinstance(w.targets[0], ast.Subscript)
+                     and _achain(fi, w.targets[0].slice) == peer)]
+        if drops:
+            drop_nodes = [x for w in drops for x in cfg.nodes_for(w)]
+            for w in list(first):
+                sites = cfg.nodes_for(w)
+                others_between = [x for o in writes if o[0] is not w and o[0] not in drops for x in cfg.nodes_for(o[0])]
+                if len(w.args) == 2 and not w.keywords and _is_advertised_flags(fi, w.args[1], payload) and sites \
+                        and all(cfg.must_complete(sx, drop_nodes) for sx in sites) and not others_between:
+                    first.remove(w)
+                    over.append(w)
+            if over and not first:
+                other = [w for w in other if w not in drops]
+        nodes = [x for w in over for x in cfg.nodes_for(w)]
+        always = bool(nodes) and cfg.must_complete(cfg.exit, nodes)
+        if nodes and not always and not other and not first:
+            # the overwrite is skipped only over an edge on which the entry already equals the flags of this payload
+            def same_already(u, v, lab) -> bool:
+                for f in _edge_facts(fi, u, lab):
+                    if f.op != "eq" or not f.pos:
+                        continue
+                    for x, y in ((f.left, f.right), (f.right, f.left)):
+                        x = resolve(fi, x)
+                        held = (isinstance(x, ast.Subscript) and _achain(fi, x.value) == "self.candidates" and _achain(fi, x.slice) == peer) \
+                            or (isinstance(x, ast.Call) and isinstance(x.func, ast.Attribute) and x.func.attr == "get" and x.args
+                                and _achain(fi, x.func.value) == "self.candidates" and _achain(fi, x.args[0]) == peer)
+                        if held and _is_advertised_flags(fi, y, payload):
+                            return True
+                return False
+            always = cfg.exit not in cfg.reach(cut_out_normal=nodes, cut_edge=same_already)
+        # an overwrite that runs only when there is no entry yet is a keep-first write as well
+        absent_only = []
+        for w in over:
+            fs = _expand(fi, facts_at(cfg, w))
+            if any(f.op == "in" and not f.pos and _achain(fi, f.left) == peer and _achain(fi, f.right) == "self.candidates" for f in fs):
+                absent_only.append(w)
+        n += 1
+        if always and not other and not rebound and not absent_only:
+            ctx.check(True, "candidate-flags", fi, over[0], "candidates[peer] overwritten with the flags of this payload on every completing path")
+            continue
+        foreign = [c for c in calls(fi) if call_name(c) not in ("extract_peer_flags", "setdefault", "get") and not (chain(c.func) or "").startswith(_LOG_PREFIX)
+                   and call_name(c) not in _PURE]
+        keep_first_only = (first or absent_only) and not other and not rebound and not [w for w in over if w not in absent_only]
+        nothing = not writes and not foreign and not rebound
+        if keep_first_only or nothing:
+            site = (first + absent_only)[0] if keep_first_only else fi.node
+            ctx.check(False, "candidate-flags", fi, site, "candidates[peer] overwritten with the flags of this payload",
+                      f"TunnelCommunity.{name} does not overwrite candidates[peer] with the flags the peer advertises now: flags it has withdrawn "
+                      "(PEER_FLAG_EXIT_IPV8) stay on the hops built from the table, Circuit.exit_flags keeps reporting them and "
+                      "TunnelEndpoint.send's find_circuits(exit_flags=[PEER_FLAG_EXIT_IPV8]) tunnels anonymized packets to an exit that is not IPv8-capable")
+            continue
+        undecided = undecided or AnalysisError(f"undecided: how TunnelCommunity.{name} records the advertised flags in self.candidates is not recognised")
+    ctx.floor("candidate-flags", n, 2)
+    if undecided is not None:
+        raise undecided
+
+
 def run(ctx: Ctx) -> None:
     # "analysis does not apply" (exit 2) in one rule must not hide a violation that another rule can still report
     pending = None
-    for rule in (rule_send, rule_queue, rule_who, rule_opt_in, rule_exit_flags, rule_circuit_filter):
+    for rule in (rule_send, rule_queue, rule_who, rule_opt_in, rule_exit_flags, rule_circuit_filter, rule_candidate_flags):
         try:
             rule(ctx)
         except AnalysisError as e:
             pending = pending or e
     if pending is not None and not ctx.findings:
         raise pending
-    ctx.assume("the flags recorded on a hop are the ones the peer advertised when the hop was chosen (C08 covers hop selection)")
+    ctx.assume("the flags recorded on a hop are the ones the candidates table held when the hop was chosen (C08 covers hop selection; "
+               "candidate-flags: the table holds what the peer advertised last)")
     ctx.assume("REST isolation endpoint calls to set_anonymity are operator actions, not overlay traffic")
 
 
 WITNESSES = [
+    {"name": "first advertised flags stick (setdefault)", "file": COMM, "rule": "candidate-flags",
+     "old": "        self.candidates[peer] = self.extract_peer_flags(payload.extra_bytes)\n\n    def introduction_response_callback",
+     "new": "        self.candidates.setdefault(peer, self.extract_peer_flags(payload.extra_bytes))\n\n    def introduction_response_callback"},
+    {"name": "flags recorded only for unknown peers", "file": COMM, "rule": "candidate-flags",
+     "old": "        self.candidates[peer] = self.extract_peer_flags(payload.extra_bytes)\n\n    def create_introduction_request",
+     "new": "        if peer not in self.candidates:\n            self.candidates[peer] = self.extract_peer_flags(payload.extra_bytes)\n\n    def create_introduction_request"},
     {"name": "switch default True", "file": EP, "rule": "send-classification",
      "old": "if not self.settings.get(prefix, False):", "new": "if not self.settings.get(prefix, True):"},
     {"name": "raw fallback when no tunnel community", "file": EP, "rule": "send-classification",
